@@ -160,25 +160,83 @@ func shape(suffix []string) string {
 	return strings.Join(ks, "+")
 }
 
+// enumerateQuick is the quick tier: a reduced alphabet chosen so that the
+// whole space completes within the time cap on real repositories (process
+// creation limits this sandbox to about one pair per second, whatever the
+// number of workers). Items: rA, rB, pA, a+S, a+j (skip annotations only) in
+// suffixes of length <= 2, plus the twelve length-3 suffixes in which ONE entry
+// carries TWO annotations (skip / plain note in both orders): whether an entry
+// counts as revoked must not depend on which of its annotations is met first.
+func enumerateQuick() []pairSpec {
+	base := [][]string{{}}
+	firsts := []string{"rA", "rB", "pA", "a+S"}
+	for _, f := range firsts {
+		base = append(base, []string{f})
+	}
+	for _, f := range firsts {
+		seconds := []string{"rA", "rB", "pA", "a+S"}
+		if f[0] != 'a' {
+			seconds = append(seconds, "a+0")
+		}
+		for _, g := range seconds {
+			base = append(base, []string{f, g})
+		}
+	}
+	double := [][]string{}
+	for _, first := range []string{"rA", "rB", "pA"} {
+		for _, s1 := range []string{"+", "-"} {
+			for _, s2 := range []string{"+", "-"} {
+				double = append(double, []string{first, "a" + s1 + "0", "a" + s2 + "0"})
+			}
+		}
+	}
+	all := append(append([][]string{}, base...), double...)
+	specs := []pairSpec{}
+	// reconcile: every local-only suffix x remote-only suffix in {[], rA, rB, a+S}
+	for _, l := range all {
+		for _, r := range [][]string{{}, {"rA"}, {"rB"}, {"a+S"}} {
+			specs = append(specs, pairSpec{Op: "reconcile", Local: l, Remote: r})
+		}
+	}
+	// sync push
+	for _, l := range all {
+		if len(l) > 0 {
+			specs = append(specs, pairSpec{Op: "sync", Local: l, Remote: []string{}})
+		}
+	}
+	// sync pull: every non-empty remote-only suffix x {as recorded; each named
+	// reference ahead, diverged, diverged with overwrite}
+	pull := func(l, r []string) {
+		specs = append(specs, pairSpec{Op: "sync", Local: l, Remote: r, States: map[string]string{}})
+		for _, x := range namedRefs(r) {
+			specs = append(specs, pairSpec{Op: "sync", Local: l, Remote: r, States: map[string]string{x: "ahead"}})
+			specs = append(specs, pairSpec{Op: "sync", Local: l, Remote: r, States: map[string]string{x: "diverged"}})
+			specs = append(specs, pairSpec{Op: "sync", Local: l, Remote: r, States: map[string]string{x: "diverged"}, Overwrite: true})
+		}
+	}
+	for _, r := range all {
+		if len(r) > 0 {
+			pull([]string{}, r)
+		}
+	}
+	// sync with diverged logs
+	for _, l := range [][]string{{"rA"}, {"a+S"}} {
+		for _, r := range [][]string{{"rA"}, {"rB"}, {"pA"}, {"a+S"}} {
+			pull(l, r)
+		}
+	}
+	return interleave(specs)
+}
+
 func enumerate(thorough bool) []pairSpec {
+	if !thorough {
+		return enumerateQuick()
+	}
 	m := 2
 	if thorough {
 		m = 3
 	}
 	full := gen(m)
-	if !thorough {
-		// quick tier: the length-3 suffixes in which ONE entry carries TWO
-		// annotations (revocation then a plain note, note then revocation,
-		// ...): whether an entry counts as revoked must not depend on which of
-		// its annotations is met first. Thorough has all suffixes of length 3.
-		for _, first := range []string{"rA", "rB", "pA"} {
-			for _, s1 := range []string{"+", "-"} {
-				for _, s2 := range []string{"+", "-"} {
-					full = append(full, []string{first, "a" + s1 + "0", "a" + s2 + "0"})
-				}
-			}
-		}
-	}
 	specs := []pairSpec{}
 	// reconcile: quick = local-only suffix <= 2 x remote-only suffix <= 1;
 	// thorough = (local <= 3 x remote <= 1) and (local <= 2 x remote <= 2)
@@ -246,9 +304,13 @@ func enumerate(thorough bool) []pairSpec {
 			addStates(l, r, false)
 		}
 	}
-	// Interleave the four families (reconcile, sync push, sync pull, sync with
-	// diverged logs) so that a run stopped by its time cap has covered all of
-	// them proportionally instead of only the first ones.
+	return interleave(specs)
+}
+
+// interleave orders the specs so that a run stopped by its time cap has
+// covered all four families (reconcile, sync push, sync pull, sync with
+// diverged logs) proportionally instead of only the first ones.
+func interleave(specs []pairSpec) []pairSpec {
 	fam := func(sp pairSpec) int {
 		switch {
 		case sp.Op == "reconcile":
@@ -1404,7 +1466,11 @@ func TestC15(t *testing.T) {
 		m = 3
 	}
 	col.Bound("max_suffix_len", m)
-	col.Rule("all pairs over the suffix alphabet {rA, rB (reference entry at a new commit), pA (propagation entry for refA), a+T / a-T (annotation skip true/false naming T = first shared entry | an earlier non-annotation entry of the same suffix | both)} on top of a shared 2-entry prefix. reconcile: quick = every local-only suffix of length <= 2 (plus the twelve length-3 suffixes in which one entry carries two annotations) x every remote-only suffix of length <= 1; thorough = (local <= 3 x remote <= 1) and (local <= 2 x remote <= 2). sync push: every local-only suffix <= %d x overwriteLocalRefs. sync pull: every non-empty remote-only suffix <= %d x local state of the references it names (as recorded/behind, equal, ahead, diverged, absent; one reference varied at a time, in thorough all combinations for suffixes <= 2) x overwriteLocalRefs. sync with diverged logs: local-only {rA | rB | pA | a+S} x non-empty remote-only suffix <= %d x states x flag. Each pair is built on two real git repositories and one API call is executed; a class is (operation, local suffix shape, remote suffix shape, reference states, flag, outcome)", m, m, m-1)
+	if thorough {
+		col.Rule("all pairs over the suffix alphabet {rA, rB (reference entry at a new commit), pA (propagation entry for refA), a+T / a-T (annotation skip true/false naming T = first shared entry | an earlier non-annotation entry of the same suffix | both)} on top of a shared 2-entry prefix. reconcile: quick = every local-only suffix of length <= 2 (plus the twelve length-3 suffixes in which one entry carries two annotations) x every remote-only suffix of length <= 1; thorough = (local <= 3 x remote <= 1) and (local <= 2 x remote <= 2). sync push: every local-only suffix <= %d x overwriteLocalRefs. sync pull: every non-empty remote-only suffix <= %d x local state of the references it names (as recorded/behind, equal, ahead, diverged, absent; one reference varied at a time, in thorough all combinations for suffixes <= 2) x overwriteLocalRefs. sync with diverged logs: local-only {rA | rB | pA | a+S} x non-empty remote-only suffix <= %d x states x flag. Each pair is built on two real git repositories and one API call is executed; a class is (operation, local suffix shape, remote suffix shape, reference states, flag, outcome)", m, m, m-1)
+	} else {
+		col.Rule("quick tier, reduced alphabet on top of a shared 2-entry prefix: suffixes of length <= 2 over {rA, rB (reference entry at a new commit), pA (propagation entry for refA), a+S (skip annotation of the first shared entry), a+0 (skip annotation of the suffix's first entry)} plus the twelve length-3 suffixes in which one entry carries two annotations (skip / plain note, both orders). reconcile: every such local-only suffix x remote-only suffix in {[], rA, rB, a+S}. sync push: every non-empty local-only suffix. sync pull: every non-empty remote-only suffix x local state {as recorded; each named reference ahead, diverged, diverged with overwriteLocalRefs}. sync with diverged logs: local-only {rA | a+S} x remote-only {rA | rB | pA | a+S} x the same states. Each pair is built on two real git repositories and one API call is executed; a class is (operation, local suffix shape, remote suffix shape, reference states, flag, outcome)")
+	}
 	col.Assume("policy-free repositories (Sync's propagation step finds no policy and records nothing); unsigned entries; local file transport between the clone and the bare remote")
 	col.Assume("branch references of each side are in the state its own log records unless a local reference state is enumerated explicitly")
 	col.Assume("certain conflict = both suffixes hold an unskipped reference or propagation entry for one reference; when the overlap involves only skipped entries both refusal (changing nothing) and a faithful replay are accepted")
